@@ -667,6 +667,30 @@ class SemantivaOrchestrator(ABC):
             if k not in params_out and k in ctx_view:
                 params_out[k] = serialize_json_safe(ctx_view[k])
                 source_out[k] = "context"
+        # Every parameter the processor takes resolves as config > context > default;
+        # a context value overrides a signature default.
+        param_getter = getattr(node.processor, "get_processing_parameter_names", None)
+        try:
+            param_names = list(param_getter() or []) if callable(param_getter) else []
+        except Exception:
+            param_names = []
+        defaults_map = self._parameter_defaults(node.processor)
+        for k in param_names:
+            if k in params_out:
+                continue
+            if k in ctx_view:
+                params_out[k] = serialize_json_safe(ctx_view[k])
+                source_out[k] = "context"
+                continue
+            info = defaults_map.get(k)
+            default_value: Any = _NO_DEFAULT
+            if isinstance(info, ParameterInfo):
+                default_value = info.default
+            elif isinstance(info, dict):
+                default_value = info.get("default", _NO_DEFAULT)
+            if default_value is not _NO_DEFAULT:
+                params_out[k] = serialize_json_safe(default_value)
+                source_out[k] = "default"
         for k, v in defaults.items():
             if k not in params_out:
                 params_out[k] = serialize_json_safe(v)
